@@ -320,9 +320,15 @@ def run(m: Model, r: Report, tier: str) -> None:
     # ---------------------------------------------------------------- R7
     req = m.require_function(f"{CLIENT}.UDSClient.request_unsafe")
     hs = [n for n in walk_no_nested(req.node) if isinstance(n, ast.ExceptHandler) and n.type is not None and ast.unparse(n.type) == "ConnectionError"]
-    okc = len(hs) == 1 and any(".__cause__" in ast.unparse(s) for s in hs[0].body) and "MissingResponse(request" in ast.unparse(hs[0]) and \
-        "await self.reconnect_unsafe()" in ast.unparse(hs[0])
+    okc = len(hs) >= 1 and all(any(".__cause__" in ast.unparse(s) for s in h_.body) and "MissingResponse(request" in ast.unparse(h_) and
+                               "await self.reconnect_unsafe()" in ast.unparse(h_) for h_ in hs)
     r.check(okc, "R7", f"{req.qualname}#connection-error-handler", "ConnectionError must become MissingResponse (with __cause__) and trigger reconnect_unsafe", loc=req.loc)
+    # every wait for a reply - the first exchange of an attempt and each poll after a responsePending - is covered by such a handler
+    waits_ = [n for n in walk_no_nested(req.node) if isinstance(n, ast.Await) and any(k in ast.unparse(n) for k in ("self.transport.request_unsafe(", "self._read(", "self.transport.read("))]
+    uncovered = [ast.unparse(w_)[:50] for w_ in waits_ if not any(isinstance(t_, ast.Try) and any(w_ is x for b_ in t_.body for x in ast.walk(b_)) and any(h_ in t_.handlers for h_ in hs)
+                                                                  for t_ in ast.walk(req.node))]
+    r.check(len(waits_) >= 2 and not uncovered, "R7", f"{req.qualname}#every-wait-covered", f"{uncovered} can raise a ConnectionError that no handler turns into MissingResponse / reconnect: "
+            "a connection lost in that phase escapes the client as a raw error", loc=req.loc)
     tries = [t for t in ast.walk(req.node) if isinstance(t, ast.Try) and any(h in t.handlers for h in hs)]
     guard_in_try = False
     for t in tries:
